@@ -7,7 +7,7 @@ ALL = [f"C{i:02d}" for i in range(1, 21)]
 
 CHECKS = {
  "C01": dict(cat="exploration", engine="model-sweep", technique="bounded exhaustive enumeration of models x configurations x branchers on the real solver, brute-force reference oracle",
-   text="Every model of the bounded spaces M1/M2/M3 is solved through every solution-producing API (satisfy, iterator, assumptions, both optimisation procedures incl. callbacks) under a slice of configurations and branchers; each returned assignment is checked against the reference semantics. Exhaustive within the stated bounds.",
+   text="Every model of the bounded spaces M1-M6 (single constraints, pairs, conflict-rich triples, clause-rich models, the clause space, literals defined by predicates) is solved through every solution-producing API (satisfy, iterator, assumptions, both optimisation procedures incl. callbacks) under a slice of configurations and branchers; each returned assignment is checked against the reference semantics. Exhaustive within the stated bounds.",
    note="small-scope hypothesis (<=5 variables, <=4 values); reference model self-checked; division denominators exclude 0", ref="DESIGN.md §4 C01"),
  "C02": dict(cat="exploration", engine="model-sweep", technique="bounded exhaustive enumeration + learned-nogood entailment check through the tap",
    text="Same enumeration; post errors and Unsatisfiable verdicts are compared with brute force, Unknown never occurs, and every nogood learned (observed through the tap, in satisfy runs and in every step of a complete iteration) must be entailed by the model (plus blocking clauses so far).",
@@ -16,13 +16,13 @@ CHECKS = {
    text="Complete iteration of every model under each configuration/brancher yields exactly the reference solution set, each solution once; every prefix is checked.",
    note="as C01", ref="DESIGN.md §4 C03"),
  "C04": dict(cat="exploration", engine="model-sweep", technique="bounded exhaustive enumeration of models x objective views x directions x procedures, brute-force optimum",
-   text="Strides of M1/M2/M3 x every variable x views (negative scale, offsets) x min/max x LinearSatUnsat/LinearUnsatSat x configurations/branchers: Optimal(s) is a solution with the brute-force optimal value, Unsatisfiable iff no solution, callbacks only see solutions.",
+   text="Strides of M1/M2/M3/M5 x every variable x views (negative scale, offsets) x min/max x LinearSatUnsat/LinearUnsatSat x configurations/branchers: Optimal(s) is a solution with the brute-force optimal value, Unsatisfiable iff no solution, callbacks only see solutions.",
    note="small-scope hypothesis; termination condition never fires", ref="DESIGN.md §4 C04"),
  "C05": dict(cat="exploration", engine="model-sweep", technique="bounded exhaustive enumeration of assumption lists and solve histories, brute-force oracle for results and cores",
    text="All assumption lists up to length 2 (3 thorough) over a predicate alphabet incl. out-of-domain and hole values, with and without (double) core extraction, followed by a plain satisfy; plus 2-step assumption histories on one solver. Solutions satisfy model+assumptions, unsat-under-assumptions only if truly so, cores are implied by the assumptions and inconsistent with the model, assumptions are not retained.",
    note="own definition of a directly contradictory pair (no integer satisfies both)", ref="DESIGN.md §4 C05"),
  "C06": dict(cat="exploration", engine="proof-checker", technique="bounded exhaustive enumeration of proof-producing runs, each proof checked by an independent DRCP checker (exhaustive semantic check of inferences, reverse constraint propagation for nogoods)",
-   text="Strides of M1/M3/M4 x {satisfy, min/max with both procedures} x {scaffold, full, hinted} x minimisation on/off x 2 branchers with named variables and one tag per constraint; own .drcp/.lits parsers; every tagged inference follows from the single reference constraint by exhaustion; untagged inferences from one constraint / earlier nogood / domains (objective cuts admitted only at incumbent values); every nogood is RCP-derivable and entailed by the reference solutions; UNSAT preceded by the empty nogood; optimality conclusion is the true dual bound.",
+   text="Strides of M1/M3/M4/M5/M6 (incl. literal variables and literals defined by predicates) x {satisfy, min/max with both procedures} x {scaffold, full, hinted} x minimisation on/off x 2 branchers with named variables and one tag per constraint; own .drcp/.lits parsers; every tagged inference follows from the single reference constraint by exhaustion; untagged inferences from one constraint (with the root facts established by earlier unit nogoods) / earlier nogood / domains (objective cuts admitted only at incumbent values); every nogood is RCP-derivable and entailed by the reference solutions; UNSAT preceded by the empty nogood; optimality conclusion is the true dual bound.",
    note="scaffold proofs of LinearSatUnsat runs do not contain the objective cuts, so their nogoods are only checked structurally", ref="DESIGN.md §4 C06"),
  "C13": dict(cat="exploration", engine="fzn-cli", technique="grammar-bounded exhaustive enumeration of FlatZinc texts run through the real binary, independent evaluator of the builtins",
    text="Every handled constraint name (110+ instantiations), single and paired, x goals x flags (-a, -f, optimisation strategy), declaration variants (aliases, fixed values, set domains, arrays, parameters), search annotations; the printed blocks are compared with a brute-force evaluation of the standard FlatZinc semantics.",
